@@ -1,4 +1,7 @@
 import PlumpyModel.Fault.Model
+import PlumpyModel.Fault.Proof0
+import PlumpyModel.Fault.Proof6
+import PlumpyModel.Fault.Proof7
 /-!
 # C03 — a failure in user code ends the process EXCEPTED, never half-transitioned
 
@@ -8,8 +11,11 @@ before the transition is that of a live process as C02's invariant describes it 
 callbacks installed, no cleanup run, nothing notified).  All statements are over the complete (finite) space of
 from-labels × targets × fault points × before/after variants, decided by the kernel.
 
-Faults in listeners (swallowed by the event helper) are outside this model: the Python monitor compares every such run
-with the fault-free run of the same schedule.
+The second half of the file is about WHOLE RUNS: the process-control model with listeners (`PM/Listener.lean`) with the same user
+overrides put into every lifecycle hook (`Fault/Process.lean`, namespace `PMF.FP`: program, schedule of requests, requests that
+listeners issue from inside transitions, one injected fault), plus the faults that are not lifecycle hooks: a raising step function
+or `out()` call and a failing `call_soon` callback (statements about `PMF.L` itself), listeners and cleanups (the loops that swallow
+their exceptions), construction.  Every case the harness runs is decided by these models (`pmodel faultrun` / `pmodel fault`).
 -/
 namespace Fault
 open PMF
@@ -72,4 +78,347 @@ theorem C03_play_hook_fault_reported (c : PP) (af : Bool) :
 example : liveLabel .running = true ∧ Label.finished ∈ allowed .running ∧
     reached .running { label := .finished } ⟨.entering, true⟩ = true ∧ afterClose ⟨.entering, true⟩ = false := by decide
 
+/-! ### user code called in loops that swallow exceptions; construction; `out()` -/
+
+/-- **listeners and cleanups** (`EventHelper.fire_event`, the cleanup loop of `on_close`): whichever callbacks raise, EVERY callback
+runs exactly once and in order, the state they leave is the one they leave when none of them raises, nothing propagates (the function
+returns a state, not an exception), and exactly the raising ones are logged. -/
+theorem C03_swallowed_exceptions_change_nothing {σ : Type} (cbs : List (Callback σ)) (s : σ) :
+    (callAll cbs s).1 = (callAll (quiet cbs) s).1 ∧ (callAll cbs s).2.1 = cbs.length ∧
+    (callAll cbs s).2.2 = (cbs.filter (·.raises)).length ∧ (callAll cbs s).1 = cbs.foldl (fun t cb => cb.eff t) s := by
+  unfold callAll quiet
+  rw [callAll_fold, callAll_fold]
+  refine ⟨?_, by simp, by simp, rfl⟩
+  show _ = List.foldl (fun t cb => cb.eff t) s (List.map (fun cb => { cb with raises := false }) cbs)
+  rw [List.foldl_map]
+
+-- three cleanups, the first one raising: all three ran, one exception was logged
+example : callAll [⟨(· + 1), true⟩, ⟨(· + 10), false⟩, ⟨(· + 100), false⟩] (0 : Nat) = (111, 3, 1) := by decide
+
+/-- **construction**: a fault in `on_create`, before or after `super().on_create()`, propagates to the caller of the constructor and
+no process object is returned; without a fault the constructor returns a CREATED process. -/
+theorem C03_construction_fault_propagates (af : Bool) :
+    construct (some af) = (none, some true) ∧ (construct none).2 = none ∧ ((construct none).1.map (·.label)) = some .created := by
+  cases af <;> decide
+
+/-- **output hooks**: an `out()` call whose `on_output_emitting` / `on_output_emitted` override raises (before or after `super()`)
+raises that exception into the step function that made the call — so the step function raises, which is
+`PMF.L.C03_raising_step_excepted` below —; the value is stored iff `on_output_emitting` had returned, the listeners were told iff the
+base `on_output_emitted` ran. -/
+theorem C03_output_hook_fault (h : OHook) (af : Bool) :
+    (outCall (some (h, af))).2 = some true ∧
+    ((outCall (some (h, af))).1.stored = (h == .emitted)) ∧
+    ((outCall (some (h, af))).1.notified = (h == .emitted && af)) ∧
+    outCall none = ({ stored := true, notified := true }, none) := by
+  cases h <;> cases af <;> decide
+
 end Fault
+
+/-! ## Whole runs: faults that are not lifecycle hooks (statements about the model with listeners itself) -/
+namespace PMF
+namespace L
+
+/-- **a step function (or an `out()` call in it) that raises ends the process EXCEPTED with exactly that exception**: for every
+program, plan of listener requests and history, if in the configuration reached the process is live and the stepping task is inside
+a step function whose next move is to raise `e`, then the wake-up of the stepping task leaves the process EXCEPTED with `e`, its
+future raising `e`, closed, the cleanups run once, listeners told once — whatever pause or kill request was pending (it is dropped)
+— and `step_until_terminated()` has returned normally. -/
+theorem C03_raising_step_excepted (P : Prog) (nf : Nat) (plan : Plan) (evs : List Ev) (e : Exc)
+    (hl : terminal (runL P (initL nf plan) evs).c.st.label = false)
+    (hpc : (runL P (initL nf plan) evs).c.pc = .inUser ⟨0, .raise e⟩) :
+    let l' := (stepL P (runL P (initL nf plan) evs) .tick).1
+    l'.c.st = .excepted e ∧ l'.c.fut = .exc e ∧ l'.c.closed = true ∧ l'.c.cleanups = 1 ∧ termCount l'.c.notif = 1 ∧
+    l'.c.pc = .done := by
+  intro l'
+  have hi : Inv2 (runL P (initL nf plan) evs).c := runL_inv2 P _ evs (inv2_init nf)
+  obtain ⟨h1, h2, h3⟩ := tick_raise (fireN_g3 _) (fireN_qq _) P _ e hi hl hpc
+  obtain ⟨o1, o2, o3, o4⟩ := excepted_outcome h2 h1
+  exact ⟨h1, o1, o2, o3, o4, h3⟩
+
+/-- **… a step function that raises without awaiting anything** (configuration level: any configuration in which C02's invariant
+holds — every reachable one, `C02_listener_outcome_agrees` —, the state RUNNING a function whose body raises at once): `Process.step`
+ends the same way within the callback that activated the function. -/
+theorem C03_raising_sync_step_excepted (P : Prog) (n m : Nat) (l : LCfg) (e : Exc) (fn : Nat) (args : List Val)
+    (kw : List (Nat × Val)) (hi : Inv2 l.c) (hst : l.c.st = .running fn args kw) (hb : P fn args kw l.c.ctx = ⟨0, .raise e⟩)
+    (hnc : ∀ e', l.c.pc ≠ .crashed e') :
+    let l' := stepBodyL (fireN m) P (n + 1) l
+    l'.c.st = .excepted e ∧ l'.c.fut = .exc e ∧ l'.c.closed = true ∧ l'.c.cleanups = 1 ∧ l'.c.pc = .done := by
+  intro l'
+  obtain ⟨h1, h2, h3⟩ := stepBodyL_raise (fireN_g3 m) (fireN_qq m) P n l e fn args kw hi hst hb hnc
+  obtain ⟨o1, o2, o3, _⟩ := excepted_outcome h2 h1
+  exact ⟨h1, o1, o2, o3, h3⟩
+
+/-- **a failing `call_soon` callback fails a live process** (`callback_excepted` → `fail()`): for every program, plan and history, if
+the process is live when the raising callback runs, it ends EXCEPTED with the callback's exception, future raising it, closed. -/
+theorem C03_failing_callback_excepted (P : Prog) (nf : Nat) (plan : Plan) (evs : List Ev)
+    (hl : terminal (runL P (initL nf plan) evs).c.st.label = false)
+    (hr : (runL P (initL nf plan) evs).c.ready.contains (.usercb true) = true) :
+    let l' := (stepL P (runL P (initL nf plan) evs) (.tickCb (.usercb true))).1
+    l'.c.st = .excepted (.user 8) ∧ l'.c.fut = .exc (.user 8) ∧ l'.c.closed = true ∧ l'.c.cleanups = 1 := by
+  intro l'
+  have hi : Inv2 (runL P (initL nf plan) evs).c := runL_inv2 P _ evs (inv2_init nf)
+  obtain ⟨h1, h2⟩ := callback_raise (fireN_g3 _) _ hi hl hr
+  obtain ⟨o1, o2, o3, _⟩ := excepted_outcome h2 h1
+  exact ⟨h1, o1, o2, o3⟩
+
+/-- **… and changes nothing on a terminated one**: state, future, closedness are those before the callback ran. -/
+theorem C03_late_failing_callback_changes_nothing (P : Prog) (l : LCfg) (ht : terminal l.c.st.label = true) :
+    let l' := (stepL P l (.tickCb (.usercb true))).1
+    l'.c.st = l.c.st ∧ l'.c.fut = l.c.fut ∧ l'.c.closed = l.c.closed ∧ l'.c.cleanups = l.c.cleanups ∧ l'.c.notif = l.c.notif := by
+  intro l'
+  have : l' = (if l.c.ready.contains (.usercb true) then l.upd fun c => { c with ready := c.ready.erase (.usercb true) } else l) :=
+    callback_raise_terminated l ht
+  rw [this]
+  split <;> exact ⟨rfl, rfl, rfl, rfl, rfl⟩
+
+end L
+end PMF
+
+/-! ## Whole runs with a fault in a lifecycle hook (`Fault/Process.lean`)
+
+`runX P (initX nf plan (some a)) evs`: program `P`, `nf` awaited futures, the plan of requests that listeners issue from inside
+notifications, the fault `a` (hook, number of calls that pass first, before / after `super()`), history `evs` of event-loop
+callbacks and requests.  `fired` says that the fault has fired. -/
+namespace PMF
+namespace FP
+open L
+
+/-- the outcome the property demands of a run whose fault is `faultExc` -/
+def GoodRun (x : FCfg) : Prop :=
+  x.l.c.st = .excepted faultExc ∧ x.l.c.fut = .exc faultExc ∧ x.l.c.closed = true ∧ x.l.c.cleanups = 1 ∧ x.l.trans = none
+
+/-- the run ended in an error of the state machine itself (a "cannot transition" / "future already resolved" / failed assertion
+of `call_with_super_check`), not in the fault -/
+def InternalError (x : FCfg) : Prop := ∃ e, Internal e ∧ x.l.c.st = .excepted e
+
+/-- **a fault in a lifecycle hook of a transition ends the process EXCEPTED with exactly that exception**: for every program,
+every plan of listener requests, every history of events (wake-ups of the stepping task and of callbacks in any order, pause, play,
+kill, resume, fail, …) and every fault point — any of `on_exit_running/waiting`, `on_run/wait/finish/kill`,
+`on_running/waiting/finished/killed`, `on_terminated`, `on_close`, any occurrence, raising before or after `super()` — EXCEPT the two
+points after `close()` (`afterClose`, finding F18): once the fault has fired, in every later configuration the process is EXCEPTED
+with the fault, its future raises the fault, it is closed, the cleanups ran exactly once and no transition is left in progress.
+(Hypothesis `hni`, needed for `on_terminated` / `on_close` only: the run did not end in an error of the state machine itself — a
+"cannot transition" or a failed assertion whose own failing transition is then hit by the fault, a second failure, which
+`transition_to` re-raises.  For the other ten hooks there is no hypothesis beyond the fault having fired.) -/
+theorem C03_hook_fault_ends_excepted (P : Prog) (nf : Nat) (plan : Plan) (a : Arm) (evs : List Ev)
+    (hm : mainHK a.hk = true) (hac : afterClose a = false)
+    (hf : (runX P (initX nf plan (some a)) evs).fired = true)
+    (hni : (a.hk = .onTerminated ∨ a.hk = .onClose) → ¬ InternalError (runX P (initX nf plan (some a)) evs)) :
+    GoodRun (runX P (initX nf plan (some a)) evs) := by
+  rw [runX_armed] at hf hni ⊢
+  have hk := runF_K hac P _ evs (initX_K a nf plan)
+  rcases hk.g with ⟨hh, _, e, he, hs⟩ | ⟨hi, hex⟩
+  · exact absurd ⟨e, he, hs⟩ (hni hh)
+  · have hst := hex hm hf
+    have ht : terminal (runF P (initX nf plan (some a)) evs).l.c.st.label = true := by rw [hst]; exact excepted_terminal _
+    obtain ⟨h1, h2, h3⟩ := hi.term ht
+    rw [hst] at h3
+    exact ⟨hst, by simpa [outcomeOf] using h3.symm, h1, h2, hk.tr⟩
+
+/-- **no fault at any point ever breaks the agreement of the outcome reports** (the lifecycle part of C02's invariant): for every
+program, plan, history and EVERY fault point other than the two after `close()` — the pause / play hooks included —, in every
+configuration of the run: a live process has an unresolved future, is not closed and has run no cleanup; a terminated one is closed,
+ran its cleanups once and its future holds the outcome of its state object.  A pause / play hook fault in particular never
+terminates or half-terminates anything. -/
+theorem C03_fault_never_breaks_agreement (P : Prog) (nf : Nat) (plan : Plan) (a : Arm) (evs : List Ev)
+    (hac : afterClose a = false)
+    (hni : (a.hk = .onTerminated ∨ a.hk = .onClose) → ¬ InternalError (runX P (initX nf plan (some a)) evs)) :
+    Inv2w (runX P (initX nf plan (some a)) evs).l.c ∧ (runX P (initX nf plan (some a)) evs).l.trans = none := by
+  rw [runX_armed] at hni ⊢
+  have hk := runF_K hac P _ evs (initX_K a nf plan)
+  rcases hk.g with ⟨hh, _, e, he, hs⟩ | ⟨hi, _⟩
+  · exact absurd ⟨e, he, hs⟩ (hni hh)
+  · exact ⟨hi, hk.tr⟩
+
+/-- **pause / play hook faults, whole runs**: for every program, plan and history and every fault in `on_pausing`, `on_paused`,
+`on_playing` (any occurrence, before or after `super()`), unconditionally: the agreement above holds in every configuration of the
+run — the fault is handed to the requester (theorems below) and never terminates, closes or half-transitions anything. -/
+theorem C03_pause_play_fault_never_disturbs (P : Prog) (nf : Nat) (plan : Plan) (a : Arm) (evs : List Ev)
+    (hm : mainHK a.hk = false) :
+    Inv2w (runX P (initX nf plan (some a)) evs).l.c ∧ (runX P (initX nf plan (some a)) evs).l.trans = none := by
+  have hac : afterClose a = false := by
+    unfold afterClose; cases h : a.hk <;> simp [h, mainHK] at hm ⊢
+  rw [runX_armed]
+  have hk := runF_K hac P _ evs (initX_K a nf plan)
+  rcases hk.g with hb | ⟨hi, _⟩
+  · have := hb.main; rw [hm] at this; cases this
+  · exact ⟨hi, hk.tr⟩
+
+/-- The clause "the stepping task returns normally" for hook faults, as one would like to state it: after a transition-hook fault has
+fired, finitely many wake-ups end `step_until_terminated()` normally.  It is FALSE of the model — and of the code:
+`C03_witness_stepper_blocked_after_exit_hook_fault` below.  On every case of the harness the clause is decided by the op-by-op
+correspondence (field `task=`) and the monitor.  What is proved instead: nothing propagates out of the faulty `transition_to`
+(`C03_transition_with_fault`), and for faults that are not lifecycle hooks the task's program counter is `done`
+(`PMF.L.C03_raising_step_excepted`).  (The pause / play hooks are rightly absent from the statement:
+`C03_witness_superseded_pause_action_escapes`.) -/
+def C03_stepper_returns_after_hook_fault : Prop :=
+  ∀ (P : Prog) (nf : Nat) (plan : Plan) (a : Arm) (evs : List Ev), mainHK a.hk = true → afterClose a = false →
+    (runX P (initX nf plan (some a)) evs).fired = true → ¬ InternalError (runX P (initX nf plan (some a)) evs) →
+    ∃ n, (runF P (runX P (initX nf plan (some a)) evs) (List.replicate n .tick)).l.c.pc = .done
+
+/-- **one transition with the armed fault, every scenario** (configuration level): from ANY configuration in which the invariant
+holds and the process is live — whatever is pending or requested, inside or outside a step —, for any target state and any
+notification function with the two properties proved of the model's own (`fireNF_nk`): the invariant holds afterwards (so: if the
+fault fired in this transition, the process is EXCEPTED with it, closed, future raising it), and NOTHING propagates to the caller of
+`transition_to` (`kill()`, `fail()`, the closing part of the step, the pending pause / kill action), except after an error of the
+state machine itself. -/
+theorem C03_transition_with_fault (a0 : Arm) (N : Hook → FCfg → FCfg) (hN : NK a0 N) (hac : afterClose a0 = false)
+    (x : FCfg) (s : SObj) (hk : K a0 x) (hl : terminal x.l.c.st.label = false) :
+    K a0 (transitionToF N x s).1 ∧ ((transitionToF N x s).2 = none ∨ Bad a0 (transitionToF N x s).1) :=
+  transitionToF_K' hN x s hk hac hl
+
+/-- **the step level**: the closing part of `Process.step` — for every way the step ended (`r`: a next state, among them the EXCEPTED
+state of a raising step function; an interruption; an exception), every pending pause / kill action or none, every request a
+listener makes meanwhile — keeps the invariant, fault or no fault; and so does every event (`stepF_K`). -/
+theorem C03_step_with_fault (a0 : Arm) (n : Nat) (hac : afterClose a0 = false) (x : FCfg) (r : StepEnd) (hk : K a0 x) :
+    K a0 (endOfStepF (fireNF n) x r) :=
+  endOfStepF_K (fireNF_nk hac n) hac x r hk
+
+/-- **pause hooks**: a fault in `on_pausing` (before or after `super()`) or in `on_paused` before `super()` is raised by
+`_do_pause` to whoever asked (the caller of `pause()`, or the action future, next theorem); the process keeps its state object,
+future, closedness — only `_pausing` is cleared —, is not paused, and the fault is spent. -/
+theorem C03_pausing_hook_fault_reported (N : Hook → FCfg → FCfg) (x : FCfg) (a : Arm)
+    (ha : x.arm = some a) (hl : a.left = 0) (hh : a.hk = .onPausing ∨ (a.hk = .onPaused ∧ a.after = false)) :
+    (doPauseF N x).2 = some faultExc ∧ (doPauseF N x).1.l = x.l.upd (fun c => { c with pausing := none }) ∧
+    (doPauseF N x).1.fired = true ∧ (doPauseF N x).1.arm = none := by
+  obtain ⟨hk, left, af⟩ := a
+  simp only at hl hh
+  subst hl
+  rcases hh with h | ⟨h, h'⟩
+  · subst h; exact doPauseF_onPausing x af ha
+  · subst h; subst h'; exact doPauseF_onPaused_before x ha
+
+/-- … `on_paused` raising AFTER `super()`: the process IS paused (the base implementation ran, the listeners were notified), the
+exception is raised to the requester all the same, `_pausing` is cleared. -/
+theorem C03_paused_hook_fault_after_super (N : Hook → FCfg → FCfg) (x : FCfg) (ha : x.arm = some ⟨.onPaused, 0, true⟩) :
+    ∃ x' : FCfg, x'.l = x.l ∧ x'.arm = none ∧ x'.fired = x.fired ∧ x'.rep = x.rep ∧
+      (doPauseF N x).2 = some faultExc ∧
+      (doPauseF N x).1.l = (N .paused (x'.updC doPauseHooks)).l.upd (fun c => { c with pausing := none }) ∧
+      (doPauseF N x).1.fired = true ∧ (doPauseF N x).1.arm = none :=
+  doPauseF_onPaused_after x ha
+
+/-- **… as a pending action of the step**: the exception becomes the exception of the action future the requester holds, nothing
+propagates into the step (the stepping task goes on), `_pausing` is cleared. -/
+theorem C03_pause_action_fault_reported (N : Hook → FCfg → FCfg) (x : FCfg) (i : Nat) (act : Action) (af : Bool)
+    (hai : x.l.c.actions[i]? = some act) (hk : act.kind = .pause) (hs : act.status = .pending)
+    (ha : x.arm = some ⟨.onPausing, 0, af⟩) :
+    (runActionF N x i none).2 = none ∧
+    actionStatus (runActionF N x i none).1.l.c i = .failed faultExc ∧ (runActionF N x i none).1.l.c.pausing = none ∧
+    (runActionF N x i none).1.l.c.st = x.l.c.st := by
+  obtain ⟨h1, h2, _⟩ := runActionF_onPausing (N := N) x i act af hai hk hs ha
+  refine ⟨h1, ?_, ?_, ?_⟩
+  · rw [h2]
+    have hlt : i < x.l.c.actions.length := by
+      rcases Nat.lt_or_ge i x.l.c.actions.length with h | h
+      · exact h
+      · rw [List.getElem?_eq_none h] at hai; cases hai
+    simp only [upd_c, actionStatus, setActionStatus, hai, setAt, List.getElem?_set_self hlt]
+  · rw [h2]; simp only [upd_c]; unfold setActionStatus; split <;> rfl
+  · rw [h2]; simp only [upd_c]; exact (setActionStatus_fix ..).1
+
+/-- **play hook**: `on_playing` raising before `super()` is raised by `play()`; the process is still paused, nothing changed; raising
+after `super()` the process plays (listeners notified) and `play()` raises. -/
+theorem C03_playing_hook_fault_reported (N : Hook → FCfg → FCfg) (x : FCfg) (hp : x.l.c.paused.isSome = true) :
+    (x.arm = some ⟨.onPlaying, 0, false⟩ →
+      (playF N x).2 = .raised faultExc ∧ (playF N x).1.l = x.l ∧ (playF N x).1.fired = true ∧ (playF N x).1.arm = none) ∧
+    (x.arm = some ⟨.onPlaying, 0, true⟩ →
+      ∃ x' : FCfg, x'.l = x.l ∧ x'.arm = none ∧ x'.fired = x.fired ∧ x'.rep = x.rep ∧
+        (playF N x).2 = .raised faultExc ∧ (playF N x).1.l = (N .played (x'.updC (fun c => (play c).1))).l ∧
+        (playF N x).1.fired = true ∧ (playF N x).1.arm = none) :=
+  ⟨fun ha => playF_onPlaying_before x ha hp, fun ha => playF_onPlaying_after x ha hp⟩
+
+/-! ### witnesses and non-vacuity (concrete runs of the model, decided by the kernel; each is also a case of the harness) -/
+
+/-- the process of the harness: `run` (one await) continues with `s2(1, k=2)`, `s2` waits, `s3` (one await) returns 5 -/
+def procC03 : Prog := fun fn _ _ _ =>
+  if fn = 0 then ⟨1, .ret (.cont 1 [1] [(0, 2)])⟩ else if fn = 1 then ⟨0, .ret (.wait 2)⟩ else ⟨1, .ret (.stop (some 5) true)⟩
+
+-- non-vacuity of `C03_hook_fault_ends_excepted`: `on_finish` raising after `super()` (the future already holds the result), the fault
+-- fires in the closing transition of the last step; the run satisfies every hypothesis, and the stepping task has returned
+example :
+    let x := runX procC03 (initX 0 [] (some ⟨.onFinish, 0, true⟩)) [.tick, .tick, .resume (some 7), .tick, .tick]
+    mainHK .onFinish = true ∧ afterClose ⟨.onFinish, 0, true⟩ = false ∧ x.fired = true ∧ x.l.c.st = .excepted faultExc ∧
+    x.l.c.fut = .exc faultExc ∧ x.l.c.pc = .done := by decide +kernel
+
+-- … with a kill pending at that moment (requested while the last step was in flight): the kill action performs the transition, the
+-- fault in `on_kill` fires there; EXCEPTED with the fault, and the requester of the kill is told `True` (`.done`)
+example :
+    let x := runX procC03 (initX 0 [] (some ⟨.onKill, 0, false⟩)) [.tick, .tick, .resume (some 7), .tick, .kill, .tick]
+    x.fired = true ∧ x.l.c.st = .excepted faultExc ∧ x.l.c.fut = .exc faultExc ∧ x.l.c.closed = true ∧
+    x.l.c.actions.map (·.status) = [.done] ∧ x.l.c.pc = .done := by decide +kernel
+
+-- … with a kill requested by a LISTENER of the very transition in which the fault fires (`on_running` raising after `super()`,
+-- i.e. after the listeners were notified): the request is deferred, the process excepts, the action is cancelled by the `finally`
+example :
+    let x := runX procC03 (initX 0 [(.running, 2, .kill)] (some ⟨.onRunning, 1, true⟩)) [.tick, .tick]
+    x.fired = true ∧ x.l.c.st = .excepted faultExc ∧ x.l.c.fut = .exc faultExc ∧ x.l.c.closed = true ∧
+    x.l.c.actions.map (·.status) = [.cancelled] ∧ x.l.c.pc = .done := by decide +kernel
+
+-- non-vacuity of `C03_raising_step_excepted`: the harness's process whose `s3` raises after its await
+example :
+    let l := runL (withStepFault procC03 2 1) (initL 0 []) [.tick, .tick, .resume (some 7), .tick]
+    terminal l.c.st.label = false ∧ l.c.pc = .inUser ⟨0, .raise faultExc⟩ := by decide +kernel
+
+/-- **finding F18 on whole runs (witness)**: `on_terminated` raising AFTER `super()` in the closing transition of the last step: the
+process is EXCEPTED with the fault while its future still holds the result of the FINISHED state it had entered — the two fault points
+that `C03_hook_fault_ends_excepted` excludes, and the conclusion does fail there. -/
+theorem C03_witness_fault_after_close_run :
+    let x := runX procC03 (initX 0 [] (some ⟨.onTerminated, 0, true⟩)) [.tick, .tick, .resume (some 7), .tick, .tick]
+    afterClose ⟨.onTerminated, 0, true⟩ = true ∧ x.fired = true ∧ x.l.c.st = .excepted faultExc ∧ x.l.c.fut = .result ∧
+    x.l.c.closed = true := by decide +kernel
+
+/-- **a fault in a pause hook that has nobody left to report to escapes into the stepping task (witness; NOT in the harness's
+enumeration, reproduced on the real code)**: a pause is pending when `run` returns; the pause action performs the step's transition;
+a listener of that transition (`on_process_running`) calls `kill()`, which supersedes — cancels — the pause action that is running;
+`on_pausing` then raises; `CancellableAction.run` finds its future cancelled and re-raises; the exception leaves `Process.step()`:
+the stepping task has crashed with the fault, the process is still RUNNING, and the `finally` cancelled the kill action too while
+`_killing` still points at it. -/
+theorem C03_witness_superseded_pause_action_escapes :
+    let x := runX procC03 (initX 0 [(.running, 2, .kill)] (some ⟨.onPausing, 0, false⟩)) [.tick, .pause, .tick]
+    x.l.c.pc = .crashed faultExc ∧ x.l.c.st.label = .running ∧ x.l.c.actions.map (·.status) = [.cancelled, .cancelled] ∧
+    x.l.c.killing = some 1 := by decide +kernel
+
+/-- **`call_with_super_check` is not exception-safe (witness, reproduced on the real code)**: `play()` → `on_playing` → the
+`on_process_played` listener calls `kill()` → the transition's `on_exit_running` raises BEFORE calling `super()`, which leaves
+`_called` one too high; the transition handles the fault properly (EXCEPTED with it), but `on_playing`, whose base implementation
+completed, then fails its own final assertion: the caller of `play()` gets an `AssertionError`. -/
+theorem C03_witness_super_check_not_exception_safe :
+    let x := runX procC03 (initX 0 [(.played, 1, .kill)] (some ⟨.exitRunning, 1, false⟩)) [.tick, .pause, .tick]
+    (stepF procC03 x .play).2 = .raised .assertion ∧ (stepF procC03 x .play).1.l.c.st = .excepted faultExc ∧
+    (stepF procC03 x .play).1.l.c.fut = .exc faultExc := by decide +kernel
+
+/-- **`fail()` on a WAITING process whose `on_exit_waiting` raises leaves the stepping task blocked for ever (witness; NOT in the
+harness's enumeration, reproduced on the real code)**: the failed transition is redone with the exit phase bypassed
+(`_transition_failing`), so `Waiting.exit()` — which completes the wait the stepping task is suspended on — never runs: the process is
+EXCEPTED with the fault, closed, its future raising it, but `step_until_terminated()` never returns.  Hence
+`C03_stepper_returns_after_hook_fault` is false. -/
+theorem C03_witness_stepper_blocked_after_exit_hook_fault : ¬ C03_stepper_returns_after_hook_fault := by
+  intro h
+  have hx : (runX procC03 (initX 0 [] (some ⟨.exitWaiting, 0, false⟩)) [.tick, .tick, .tick, .fail (.user 9)]).fired = true ∧
+      (runX procC03 (initX 0 [] (some ⟨.exitWaiting, 0, false⟩)) [.tick, .tick, .tick, .fail (.user 9)]).l.c.st = .excepted faultExc ∧
+      (runX procC03 (initX 0 [] (some ⟨.exitWaiting, 0, false⟩)) [.tick, .tick, .tick, .fail (.user 9)]).l.c.pc = .awaitWaiting 0 ∧
+      (runX procC03 (initX 0 [] (some ⟨.exitWaiting, 0, false⟩)) [.tick, .tick, .tick, .fail (.user 9)]).l.c.wfs[0]? = some .pending := by
+    decide +kernel
+  obtain ⟨h1, h2, h3, h4⟩ := hx
+  have hni : ¬ InternalError (runX procC03 (initX 0 [] (some ⟨.exitWaiting, 0, false⟩)) [.tick, .tick, .tick, .fail (.user 9)]) := by
+    rintro ⟨e, he, hs⟩
+    rw [h2] at hs; cases hs
+    exact faultExc_not_internal he
+  obtain ⟨n, hn⟩ := h procC03 0 [] ⟨.exitWaiting, 0, false⟩ [.tick, .tick, .tick, .fail (.user 9)] rfl rfl h1 hni
+  generalize runX procC03 (initX 0 [] (some ⟨.exitWaiting, 0, false⟩)) [.tick, .tick, .tick, .fail (.user 9)] = x at hn h3 h4
+  -- a wake-up of a task that awaits a pending waiting future changes nothing
+  have hstay : ∀ n, runF procC03 x (List.replicate n .tick) = x := by
+    intro n
+    induction n with
+    | zero => rfl
+    | succ n ih =>
+      have h1 : (stepF procC03 x .tick).1 = x := by
+        show tickStepperF _ procC03 x = x
+        unfold tickStepperF; rw [h3]; simp only [h4]
+      show runF procC03 (stepF procC03 x .tick).1 (List.replicate n .tick) = x
+      rw [h1]; exact ih
+  rw [hstay n, h3] at hn
+  cases hn
+
+end FP
+end PMF
